@@ -92,6 +92,11 @@ def socket_checks(ck, tier, for_prop='C13'):
                 continue
             st_, r, buf, sock = p.out
             delivered_all = sock.rpos == total
+            # memory: once the header of the oversized request is buffered nothing more is read into the connection buffer
+            for ev in p.events:
+                if ev[0] == 'read' and len(ev) == 3 and not isinstance(ev[1], str):
+                    ck.obligation(f'{for_prop}:socket: an oversized body is never accumulated in the connection buffer', p.pc,
+                                  z3.ULT(ev[2], 24), {}, None, small)
             if st_ == 'pending':
                 # blocked on the socket: legitimate only if the peer has not yet sent the whole oversized frame
                 ck.obligation(f'{for_prop}:socket: never waits for bytes beyond the oversized frame', p.pc,
